@@ -104,8 +104,9 @@ ENGINES = [
 
 # What the waves of seeded changes added to each check's enumerated space (DESIGN 0.5); the exact rule and the list of
 # parts that ran are in the evidence file (coverage.rule, coverage.parts).
-HOST = (" Host configuration: a fixed fraction of every part is re-run with DEBUG logging enabled and library warnings turned into "
-        "errors; the thorough tier re-runs the whole quick-tier space under python -O and merges the result.")
+HOST = (" Host configuration: the thorough tier re-runs the whole quick-tier space under python -O and merges the result"
+        "; where the check has a debug-logging pass (all but C09, C10, C17) a fixed fraction of its parts is re-run with DEBUG "
+        "logging enabled and library warnings turned into errors.")
 EXTRA = {
     "C01": "Also: the stream ending as a history symbol, results of every JSON kind, a slow peer taking the request late, 2-3 calls one after the other on one or on separate connections with every history of deliveries bearing the id of any of the calls, every typed helper x distractor prefixes, a request that cannot be written (no waiting, nothing returned), debug-logging passes.",
     "C02": "Also: the three transports' outbound wire forms for messages built ten ways, progress-token emitters x params carrying _meta, converters and the compatibility wrapper, the same object sent twice with a mutation in between, payload-less results written to and emitted again, dict-returning request handlers x user answers of every JSON kind.",
